@@ -882,6 +882,12 @@ pub fn build(plan: &Plan) -> Model {
                 m.act_index = Some(acts.len());
                 acts.push(c.act.clone());
             }
+            CmdKind::Unsupported(_) => {
+                // error or some answer: either way no callback belongs to it, and the generator
+                // puts nothing valid behind it
+                m.reply = Reply::Unconstrained;
+                m.ends = Some(EndOfConn::Any);
+            }
         }
         if !live {
             m.routing = Routing::Exact(None);
